@@ -293,6 +293,24 @@ theorem C12_interrupted_reports_error (as : List Act) (i : Nat)
 exit status stops the task whatever `allow_failure` says -/
 theorem C12_fault_never_allowed (allow : Bool) : Runner.stops allow .fault = true := rfl
 
+/-- **an interrupted condition never turns into "skipped"**: once the context is cancelled, whatever the condition
+command ends with, the task (stage) either goes on to commands that will themselves refuse to start, or reports an error -
+it is never marked skipped, which the scheduler would count as success -/
+theorem C12_cancelled_condition_never_skips (e : CondEnd) : condVerdict true e ≠ .skipped := by
+  cases e <;> simp [condVerdict]
+
+/-- without a cancellation the verdict is the plain one: 0 proceeds, another status skips, anything else is an error -/
+theorem C12_condition_plain (e : CondEnd) :
+    condVerdict false e = (match e with | .zero => .proceed | .nonzero => .skipped | .killed => .error) := by
+  cases e <;> rfl
+
+/-- the variant that looks at the exit status first is wrong exactly on a trapped interrupt -/
+theorem C12_witness_status_first : condVerdictStatusFirst true .nonzero = .skipped ∧
+    ∀ c e, (c, e) ≠ (true, CondEnd.nonzero) → condVerdictStatusFirst c e = condVerdict c e := by
+  refine ⟨rfl, ?_⟩
+  intro c e h
+  cases c <;> cases e <;> simp_all [condVerdictStatusFirst, condVerdict]
+
 /-! ## Regression witnesses for defect D2 (fixed): the pre-fix hand-shake -/
 
 /-- no run in flight: `Cancel` never returns -/
